@@ -117,9 +117,6 @@ fn explore(api: &Api, setting_ix: usize, seed: u64, cx: &mut Cx) {
                 cx.violate(&format!("{}/uses-{}", op, c), format!("operation {} calls {} of the external key; only {:?} are expected", op, c, allowed));
             }
         }
-        if matches!(op, "slogin_start(record)" | "slogin_start(no record)") && (!log0.iter().any(|c| c == "public_key") || !log0.iter().any(|c| c == "diffie_hellman")) {
-            cx.violate(&format!("{}/bypasses-interface", op), format!("login start did not obtain the public key and the static DH through the interface (calls: {:?})", log0));
-        }
         cx.add("interface_calls_observed", log0.len() as u64);
         let calls = fallible.len();
         for n in 1..=calls + 1 {
